@@ -88,7 +88,7 @@ def padding(ctx, report):
     plen_v, pad_v = u4[0].args['value'], u1[0].args['value']
     try:
         for r in range(8):
-            for k in (0, 1, 4375):          # the expression is periodic in the length: three periods as a cross check
+            for k in (range(0, 4376) if ctx.thorough else (0, 1, 4375)):    # periodic in the length: three periods as a cross check; thorough: every length 0..35007
                 L = r + 8 * k
                 report.count('C07.R3')
                 pad = ev(pad_v, L, alt_cond)
